@@ -420,7 +420,7 @@ theorem grow_prims : ExecPrims Grow where
   pushAp := fun c => grow_th c _
   thCanonStart := fun c _ th' _ => grow_th c th'
   canonTrack := by
-    intro env stream pos peerId c
+    intro env target stream pos peerId c
     unfold updCanonTrack
     exact SameObs.grow ⟨rfl, rfl, rfl, rfl, rfl⟩
   canonFinish := by
